@@ -24,15 +24,30 @@ rm -f "$blog"
 export CARGO_TARGET_DIR="${CARGO_TARGET_DIR:-$(pwd)/target}"
 bin="$CARGO_TARGET_DIR/x86_64-unknown-linux-gnu/release/$target"
 [ -x "$bin" ] || { note unavailable "{\"reason\":\"fuzz binary missing\"}"; exit 0; }
-corpus="work/fuzz/corpus.$prop.$$"; mkdir -p "$corpus"; cp harness/fuzz/seeds/"$target"/* "$corpus"/ 2>/dev/null
+# 8 independent libFuzzer processes (different seeds, own corpus), each with runs/8
+W="${VERIF_FUZZ_WORKERS:-8}"
+per=$(( runs / W ))
 flog="work/fuzz/log.$prop.$$"
+: > "$flog"
 t0=$(date +%s)
-DV_FUZZ_PROP="$prop" "$bin" "$corpus" -runs="$runs" -seed="$seed" -len_control=0 -max_len=512 -artifact_prefix="work/fuzz/art.$prop.$$." > "$flog" 2>&1
-rc=$?
+pids=""
+for i in $(seq 1 $W); do
+  c="work/fuzz/corpus.$prop.$$.$i"; mkdir -p "$c"; cp harness/fuzz/seeds/"$target"/* "$c"/ 2>/dev/null
+  DV_FUZZ_PROP="$prop" "$bin" "$c" -runs="$per" -seed="$(( seed * 100 + i ))" -len_control=0 -max_len=512 -artifact_prefix="work/fuzz/art.$prop.$$.$i." > "$flog.$i" 2>&1 &
+  pids="$pids $!"
+done
+rc=0
+for p in $pids; do wait $p || rc=$?; done
 t1=$(date +%s)
-execs=$(grep -oE "Done [0-9]+ runs" "$flog" | grep -oE "[0-9]+" | tail -1)
-cov=$(grep -oE "cov: [0-9]+" "$flog" | tail -1 | grep -oE "[0-9]+")
-ncorp=$(ls "$corpus" | wc -l)
+execs=0; cov=0; ncorp=0
+for i in $(seq 1 $W); do
+  e=$(grep -oE "Done [0-9]+ runs" "$flog.$i" | grep -oE "[0-9]+" | tail -1); execs=$(( execs + ${e:-0} ))
+  c=$(grep -oE "cov: [0-9]+" "$flog.$i" | tail -1 | grep -oE "[0-9]+"); [ "${c:-0}" -gt "$cov" ] && cov=$c
+  n=$(ls "work/fuzz/corpus.$prop.$$.$i" | wc -l); ncorp=$(( ncorp + n ))
+  cat "$flog.$i" >> "$flog"; rm -f "$flog.$i"
+done
+corpus="work/fuzz/corpus.$prop.$$"
+cleanup() { rm -rf work/fuzz/corpus.$prop.$$.* ; }
 if grep -q "^FUZZ-CASE " "$flog"; then
   python3 - "$flog" "$prop" "$seed" <<'PY'
 import json,sys,hashlib
@@ -43,7 +58,8 @@ body={"property":c["property"],"tier":"thorough","seed":int(seed),"signature":c.
 if "json_text" in c: body["case"]={"json_text":c["json_text"]}
 if "received" in c: body["case"]={"received":c["received"],"accepted":c["accepted"]}
 h=hashlib.sha1(line.encode()).hexdigest()[:16]
-path=f"/verif/replays/{prop}-fuzz-{h}.json"
+import os
+path=os.path.join(os.getcwd(),"replays",f"{prop}-fuzz-{h}.json")
 json.dump(body,open(path,'w'),indent=1)
 print(f"VIOLATION property={prop} replay={path}")
 print("  signature:",c.get("signature"))
@@ -56,14 +72,14 @@ try:
     e=json.load(open(p)); e['violations']=e.get('violations',0)+1; json.dump(e,open(p,'w'),indent=1)
 except Exception: pass
 PY
-  rm -rf "$corpus"
+  cleanup
   exit 1
 fi
 if [ $rc -ne 0 ]; then
   # crash without a semantic violation line (OOM, timeout, harness abort): infrastructure, not a verdict
   note inconclusive "{\"target\":\"$target\",\"exit\":$rc,\"log_tail\":$(tail -3 "$flog" | python3 -c 'import json,sys; print(json.dumps(sys.stdin.read()))')}"
-  rm -rf "$corpus"; exit 0
+  cleanup; exit 0
 fi
-note ok "{\"target\":\"$target\",\"engine\":\"libFuzzer (cargo-fuzz 0.13), coverage-guided, oracle inside the target\",\"runs\":${execs:-0},\"coverage_edges\":${cov:-0},\"corpus_files\":$ncorp,\"secs\":$((t1-t0)),\"seed\":$seed}"
-rm -rf "$corpus" "$flog"
+note ok "{\"target\":\"$target\",\"engine\":\"libFuzzer (cargo-fuzz 0.13), coverage-guided, oracle inside the target\",\"processes\":$W,\"runs\":${execs:-0},\"coverage_edges\":${cov:-0},\"corpus_files\":$ncorp,\"secs\":$((t1-t0)),\"seed\":$seed}"
+cleanup; rm -f "$flog"
 exit 0
